@@ -316,7 +316,7 @@ func c01Frames(c *eng.Ctx) {
 			c.Eval(1)
 			if f := eng.Guard(func() *eng.Fail { return rleFrameRun(a, c, obs) }); f != nil {
 				a.Hex = hx(fr)
-				eng.Check(c, "C01.frame", a, rleFrameFn)
+				eng.Recheck(c, "C01.frame", a, rleFrameFn)
 			}
 		}
 		obsAll[gi] = obs
@@ -419,7 +419,7 @@ func c01Frames(c *eng.Ctx) {
 			c.Eval(1)
 			if f := eng.Guard(func() *eng.Fail { return rleFrameRun(a, c, nil) }); f != nil {
 				a.Hex = hx(fr)
-				eng.Check(c, "C01.frame", a, rleFrameFn)
+				eng.Recheck(c, "C01.frame", a, rleFrameFn)
 			}
 		}
 	})
@@ -466,7 +466,7 @@ func c01Frames(c *eng.Ctx) {
 				c.Eval(1)
 				if f := eng.Guard(func() *eng.Fail { return rleFrameRun(a, c, nil) }); f != nil {
 					a.Hex = hx(fr)
-					eng.Check(c, "C01.frame", a, rleFrameFn)
+					eng.Recheck(c, "C01.frame", a, rleFrameFn)
 				}
 			}
 		}
